@@ -33,6 +33,11 @@ def outcome(r, ok_rcs):
     return "ok"
 
 
+def BOUND(ctx):
+    """wall-clock bound of one run: the inputs take seconds (edge worlds) to about a minute (largest corpus, thorough tier)"""
+    return 240 if ctx.tier != "thorough" else 900
+
+
 def run_all_drivers(ctx, root, patterns=("./...",), extra=(), vet=True, timeout=600):
     """every (driver, mode, configuration) outcome on one module"""
     res = []
@@ -40,9 +45,13 @@ def run_all_drivers(ctx, root, patterns=("./...",), extra=(), vet=True, timeout=
         fl = worlds.cfg_flags(cfg) + list(extra)
         rj = lib.run_binary(ctx, root, flags=fl, patterns=patterns, json_mode=True, timeout=timeout)
         res.append(("multichecker -json / " + name, outcome(rj, (0,)), rj))
+        if res[-1][1] == "timeout":
+            return res          # a run that does not end is the violation; the other drivers would only wait as long
         rt = lib.run_binary(ctx, root, flags=fl, patterns=patterns, json_mode=False, timeout=timeout)
         rt["errors"] = []
         res.append(("multichecker text / " + name, outcome(rt, (0, 3)), rt))
+        if res[-1][1] == "timeout":
+            return res
     if vet:
         env = dict(ctx.env)
         rc, out, err = lib.sh(["go", "vet", "-vettool=" + ctx.gg] + list(patterns), cwd=root, env=env, timeout=timeout)
@@ -139,7 +148,7 @@ def run(ctx):
 
     def check_module(label, root, patterns=("./...",), extra=(), vet=True, files=None, tests=True):
         nonlocal found
-        res = run_all_drivers(ctx, root, patterns, extra, vet=vet, timeout=900)
+        res = run_all_drivers(ctx, root, patterns, extra, vet=vet, timeout=BOUND(ctx))
         for what, oc, r in res:
             runs.append({"input": label, "run": what, "outcome": oc})
             if oc != "ok":
@@ -225,7 +234,7 @@ def run(ctx):
     rep.cov["model_vs_implementation_on_these_inputs"] = fidelity
     rep.cov["samples"] = runs[:3]
     rep.assumptions = ["panics inside go/types, x/tools or the Go runtime, and panic sites the model does not mirror, are reachable by the runs only (partial: DESIGN section 5, C10)",
-                       "wall-clock bound 900 s per run"]
+                       "wall-clock bound %d s per run (a run that exceeds it is reported as not terminating; the remaining drivers of that input are then skipped)" % BOUND(ctx)]
     return rep.finish()
 
 
